@@ -82,6 +82,7 @@ pub fn isprime64(p: u64) -> bool {
 /// It is known that bases until 11 are enough for a 40-bit integer.
 /// It is known that testing bases until 37 is enough for a 64-bit integer.
 #[verifier::loop_isolation(false)]
+#[verifier::rlimit(100)]
 pub fn isprime64(p: u64) -> (r: bool)
     ensures r == is_prime(p as nat)
 {
